@@ -122,8 +122,17 @@ func (sr *StyleResolver) Resolve(styleID string) *ResolvedStyle {
 		}
 	}
 
-	// Detect heading
-	resolved.IsHeading, resolved.HeadingLevel = sr.detectHeading(styleDef, resolved)
+	// Detect heading: explicit markers (built-in ID, name, outline level) of the style
+	// itself or, inherited through basedOn, of the nearest base style that has one
+	for i := len(chain) - 1; i >= 0 && !resolved.IsHeading; i-- {
+		if def, ok := sr.styles[chain[i]]; ok {
+			resolved.IsHeading, resolved.HeadingLevel = sr.detectHeading(def, &ResolvedStyle{})
+		}
+	}
+	// Fallback: font-based heuristic on the fully resolved style
+	if !resolved.IsHeading {
+		resolved.IsHeading, resolved.HeadingLevel = sr.detectHeading(styleDef, resolved)
+	}
 
 	// Cache and return
 	sr.resolved[styleID] = resolved
